@@ -17,7 +17,7 @@ EXPECTED = os.path.join(ROOT, 'tools', 'fingerprints.json')
 RULES = [  # first match wins: (regex on the declaration key, properties)
     (r'^(BigInt_|type:BigInt|var:big|const:inline|var:negSentinel|negSentinel|.*[Ii]nline$|mulInline|addInline|subInline|quoInline|remInline|NewBigInt|noescape|type:intStruct|const:(bigIntSize|mathBigIntSize|mathWordSize|wordsInUint64))', ['C16', 'C05']),
     (r'^(Context_Sqrt|sqrtSettle|Context_Cbrt|Context_rootSpecials|loop_|Context_newLoop|type:loop|var:decimalCbrt|const:digitsToBitsRatio|const:strCbrt)', ['C11', 'C03', 'C07', 'C08', 'C05', 'C02']),
-    (r'^(Context_Ln|Context_Log10|Context_Exp|Context_Pow|Context_integerPower|Context_logSpecials|constWithPrecision_|type:constWithPrecision|makeConst|var:decimal(Ln|InvLn|Log|E$)|var:ln10|const:strLn|const:strInvLn)', ['C12', 'C03', 'C07', 'C08', 'C02']),
+    (r'^(Context_Ln|Context_Log10|Context_Exp|Context_Pow|Context_integerPower|Context_logSpecials|constWithPrecision_|type:constWithPrecision|makeConst|var:decimal(Ln|InvLn|Log|E$)|var:ln10|const:strLn|const:strInvLn)', ['C12', 'C03', 'C07', 'C08', 'C02', 'C05', 'C06']),
     (r'^(Context_Quantize|Context_quantize|Context_toIntegral|Context_RoundToIntegral|Context_Ceil|Context_Floor)', ['C09', 'C20', 'C03', 'C05', 'C06', 'C08', 'C02']),
     (r'^(Context_QuoInteger|Context_Rem)$', ['C10', 'C02', 'C03', 'C05', 'C06', 'C07', 'C08']),
     (r'^(Context_Add|Context_add|Context_Sub|Context_Mul|Context_Quo|Context_quoSpecials|Context_Abs|Context_Neg|Context_Round|Context_round|Rounder_|round[A-Z0]|roundAddOne|Decimal_setExponent|upscale|type:Rounder|const:Round|var:roundings)', ['C01', 'C02', 'C07', 'C20', 'C03', 'C05', 'C06', 'C08', 'C09', 'C10']),
